@@ -1,68 +1,51 @@
 /-
 C20 — Packet lifetime and hop budget on the wire honour the request.
-Property theorems only.  Model: `FlexModel/Geo/LT.lean`.
+Property theorems only.
+  Model (what the code does):        `FlexModel/Geo/LT.lean`
+  Spec  (what the standard demands): `FlexModel/Geo/LTSpec.lean` — written from EN 302 636-4-1 §9.6.4, §10.3 and the
+                                     property text; it uses no model function (no `LT.millis`, `LT.greatest`, `srcHops` …)
+  Receive prologue (C04's model, tied by C04's correspondence): `FlexModel/Geo/RecvPath.lean`
+Every clause is stated as "model meets Spec"; the tie model ↔ /repo is the correspondence of harness/props/c20.py and
+the bridge `Props/C20Bridge.lean` (AST-extracted quantiser = `LT.setMillis` for all inputs).
 -/
 import FlexModel.Geo.LT
+import FlexModel.Geo.LTSpec
+import FlexModel.Geo.LTLemmas
+import FlexModel.Geo.RecvPath
 import Generated.Mib
 
 namespace Props.C20
 open FlexModel.Geo
 
-/-! ## Lifetime quantiser -/
-
-private theorem unit_cases (b : Nat) (h : b < 4) : b = 0 ∨ b = 1 ∨ b = 2 ∨ b = 3 := by omega
+/-! ## 1. Lifetime quantiser (model-level facts about `LT.greatest`, all `v : Nat`; proofs: `Geo/LTLemmas.lean`) -/
 
 /-- never exceeds the request (all `v`, not only ≤ 7 000 000) -/
-theorem greatest_le (v : Nat) : (LT.greatest v).millis ≤ v := by
-  simp only [LT.greatest, LT.stepQ, LT.unit]
-  repeat' split
-  all_goals (simp only [LT.millis, LT.unit] at *; omega)
+theorem greatest_le (v : Nat) : (LT.greatest v).millis ≤ v := LTLemmas.greatest_le v
 
 /-- the written lifetime is the largest representable one not exceeding the request -/
 theorem greatest_max (v : Nat) (c : LT) (hc : c.WF) (hle : c.millis ≤ v) :
-    c.millis ≤ (LT.greatest v).millis := by
-  obtain ⟨hm, hb⟩ := hc
-  obtain ⟨m, b⟩ := c
-  simp only at hm hb
-  rcases unit_cases b hb with rfl | rfl | rfl | rfl <;>
-  · simp only [LT.millis, LT.unit] at hle
-    simp only [LT.greatest, LT.stepQ, LT.unit]
-    repeat' split
-    all_goals (simp only [LT.millis, LT.unit] at *; omega)
+    c.millis ≤ (LT.greatest v).millis := LTLemmas.greatest_max v c hc hle
 
 /-- non-zero whenever at least 50 ms were requested -/
-theorem greatest_pos (v : Nat) (h : 50 ≤ v) : 0 < (LT.greatest v).millis := by
-  simp only [LT.greatest, LT.stepQ, LT.unit]
-  repeat' split
-  all_goals (simp only [LT.millis, LT.unit] at *; omega)
+theorem greatest_pos (v : Nat) (h : 50 ≤ v) : 0 < (LT.greatest v).millis := LTLemmas.greatest_pos v h
 
 /-- the result is always a well-formed (6-bit, 2-bit) code -/
-theorem greatest_wf (v : Nat) : (LT.greatest v).WF := by
-  simp only [LT.greatest, LT.stepQ, LT.unit]
-  repeat' split
-  all_goals (simp only [LT.WF] at *; omega)
+theorem greatest_wf (v : Nat) : (LT.greatest v).WF := LTLemmas.greatest_wf v
 
 /-- Full-strength statement for a quantiser without the ≥ 1 000 000 ms cap (`capped = false`). -/
 theorem setMillis_spec (v : Nat) :
     let r := LT.setMillis false v
-    r.WF ∧ r.millis ≤ v ∧ (∀ c : LT, c.WF → c.millis ≤ v → c.millis ≤ r.millis) ∧ (50 ≤ v → 0 < r.millis) := by
-  simp only [LT.setMillis, Bool.false_eq_true, false_and, if_false]
-  exact ⟨greatest_wf v, greatest_le v, fun c hc h => greatest_max v c hc h, greatest_pos v⟩
+    r.WF ∧ r.millis ≤ v ∧ (∀ c : LT, c.WF → c.millis ≤ v → c.millis ≤ r.millis) ∧ (50 ≤ v → 0 < r.millis) :=
+  LTLemmas.setMillis_spec v
 
 /-- The code as it is (`capped = true`): the property outside the known region `v ≥ 1 000 000`. -/
 theorem setMillis_spec_partial (v : Nat) (hv : v < 1000000) :
     let r := LT.setMillis true v
-    r.WF ∧ r.millis ≤ v ∧ (∀ c : LT, c.WF → c.millis ≤ v → c.millis ≤ r.millis) ∧ (50 ≤ v → 0 < r.millis) := by
-  have : ¬ (1000000 ≤ v) := by omega
-  simp only [LT.setMillis, this, and_false, if_false]
-  exact ⟨greatest_wf v, greatest_le v, fun c hc h => greatest_max v c hc h, greatest_pos v⟩
+    r.WF ∧ r.millis ≤ v ∧ (∀ c : LT, c.WF → c.millis ≤ v → c.millis ≤ r.millis) ∧ (50 ≤ v → 0 < r.millis) :=
+  LTLemmas.setMillis_spec_partial v hv
 
 /-- "never exceeds" holds for the capped code for every `v` (the cap only loses lifetime). -/
-theorem setMillis_le (capped : Bool) (v : Nat) : (LT.setMillis capped v).millis ≤ v := by
-  unfold LT.setMillis
-  split
-  · simp [LT.millis]
-  · exact greatest_le v
+theorem setMillis_le (capped : Bool) (v : Nat) : (LT.setMillis capped v).millis ≤ v := LTLemmas.setMillis_le capped v
 
 /-- Known finding C20-KF1, machine-checked witness: 1 000 000 ms is written as 0 although
 6 300 000 ms (63 × 100 s) … and in particular 1 000 000 ms itself (10 × 100 s) are representable. -/
@@ -70,69 +53,157 @@ theorem setMillis_capped_witness :
     (LT.setMillis true 1000000).millis = 0 ∧ (⟨10, 3⟩ : LT).WF ∧ (⟨10, 3⟩ : LT).millis = 1000000 := by
   decide
 
-/-- Defect C20-F1 of the pinned commit (repaired by the `fix:` commit), machine-checked witnesses. -/
+/-- History (not tied to the present code, no driver op): defect C20-F1 of the pinned commit, repaired by the `fix:`
+commit — machine-checked witnesses against the old quantiser kept in the model file as `LT.setMillisOld`. -/
 theorem setMillisOld_witness :
     (LT.setMillisOld 700).millis = 0 ∧ (LT.setMillisOld 1999).millis = 1000 ∧
     (LT.greatest 700).millis = 700 ∧ (LT.greatest 1999).millis = 1950 := by
   decide
 
-/-! ## Lifetime code round trip -/
+/-! ## 2. Lifetime octet: codec round trip, and the model's reading of an octet IS the standard's (§9.6.4) -/
 
-/-- `mult << 2 | base` is `4·mult + base` on well-formed codes -/
-theorem encode_eq (c : LT) (h : c.WF) : c.encode = 4 * c.mult + c.base := by
-  obtain ⟨m, b⟩ := c
-  obtain ⟨hm, hb⟩ := h
-  simp only at hm hb
-  have : ∀ m : Fin 64, ∀ b : Fin 4, LT.encode ⟨m.1, b.1⟩ = 4 * m.1 + b.1 := by decide +kernel
-  exact this ⟨m, hm⟩ ⟨b, hb⟩
+theorem decode_encode (c : LT) (h : c.WF) : LT.decode c.encode = c := LTLemmas.decode_encode c h
 
-theorem decode_encode (c : LT) (h : c.WF) : LT.decode c.encode = c := by
-  obtain ⟨m, b⟩ := c
-  obtain ⟨hm, hb⟩ := h
-  simp only at hm hb
-  have : ∀ m : Fin 64, ∀ b : Fin 4, LT.decode (LT.encode ⟨m.1, b.1⟩) = ⟨m.1, b.1⟩ := by decide +kernel
-  exact this ⟨m, hm⟩ ⟨b, hb⟩
+theorem encode_decode (b : Nat) (h : b < 256) : (LT.decode b).encode = b ∧ (LT.decode b).WF := LTLemmas.encode_decode b h
 
-theorem encode_decode (b : Nat) (h : b < 256) : (LT.decode b).encode = b ∧ (LT.decode b).WF := by
-  have : ∀ b : Fin 256, (LT.decode b.1).encode = b.1 ∧ (LT.decode b.1).WF := by decide +kernel
-  exact this ⟨b, h⟩
+/-- **decoding a lifetime field yields the value the standard assigns to the octet** — for all 256 octets the
+shift/mask decoder followed by `get_value_in_millis` equals `LTSpec.octetMillis` (div/mod reading of §9.6.4 Table 5) -/
+theorem decode_reads_octet (b : Nat) (h : b < 256) : (LT.decode b).millis = LTSpec.octetMillis b :=
+  LTLemmas.decode_reads_octet b h
 
-/-- decoding the lifetime octet yields the value its sender encoded -/
-theorem decode_millis (c : LT) (h : c.WF) : (LT.decode c.encode).millis = c.millis := by
-  rw [decode_encode c h]
+/-- and the octet an encoder writes for a code stands, by the standard's table, for the code's value: together
+"decoding a lifetime field yields the value its sender encoded" -/
+theorem encode_octet_millis (c : LT) (h : c.WF) : LTSpec.octetMillis c.encode = c.millis ∧ c.encode < 256 ∧
+    (LT.decode c.encode).millis = c.millis :=
+  ⟨LTLemmas.encode_octet_millis c h, LTLemmas.encode_lt c h, LTLemmas.decode_millis c h⟩
 
-/-- the remaining lifetime reported upward (whole seconds) never exceeds the lifetime on the wire -/
-theorem remaining_le (c : LT) : c.seconds * 1000 ≤ c.millis := by
-  unfold LT.seconds; omega
+/-! ## 3. The written lifetime octet is the one the property demands (`LTSpec.IsLifetimeOctet`) -/
 
-/-! ## Default lifetime and hop limits -/
+/-- Spec sanity (no model function involved): an admissible octet is non-zero from 50 ms on — the third clause of the
+property follows from "largest representable not exceeding" because octet 4 stands for 50 ms -/
+theorem spec_nonzero_from_50 (ms b : Nat) (h : LTSpec.IsLifetimeOctet ms b) (h50 : 50 ≤ ms) :
+    0 < LTSpec.octetMillis b := LTLemmas.spec_nonzero_from_50 ms b h h50
 
-theorem default_used (capped : Bool) (d : Nat) :
-    srcLifetime capped none d = LT.setMillis capped (d * 1000) := rfl
+/-- Spec sanity: the demanded VALUE is unique (the octet need not be: 1000 ms = octet 0x50 = octet 0x05) -/
+theorem spec_value_unique (ms b b' : Nat) (h : LTSpec.IsLifetimeOctet ms b) (h' : LTSpec.IsLifetimeOctet ms b') :
+    LTSpec.octetMillis b = LTSpec.octetMillis b' := LTLemmas.spec_value_unique ms b b' h h'
 
-theorem request_used (capped : Bool) (ms d : Nat) :
-    srcLifetime capped (some ms) d = LT.setMillis capped ms := rfl
+/-- **clauses 1-3, repaired quantiser**: for EVERY requested lifetime the written octet is the demanded one -/
+theorem written_octet_meets_spec (v : Nat) : LTSpec.IsLifetimeOctet v (LT.setMillis false v).encode :=
+  LTLemmas.written_octet_meets_spec v
 
-theorem shb_beacon_hops (req dflt : Nat) :
-    srcHops .shb req dflt = (1, 1) ∧ srcHops .beacon req dflt = (1, 1) := ⟨rfl, rfl⟩
+/-- **clauses 1-3, the code as it is**: for every requested lifetime below 1 000 000 ms (known finding C20-KF1 above) -/
+theorem written_octet_meets_spec_partial (v : Nat) (hv : v < 1000000) :
+    LTSpec.IsLifetimeOctet v (LT.setMillis true v).encode := LTLemmas.written_octet_meets_spec_partial v hv
 
-theorem multihop_hops (t : Transport) (ht : t = .gbc ∨ t = .gac ∨ t = .guc) (req dflt : Nat) :
-    (srcHops t req dflt).1 = (srcHops t req dflt).2 ∧
-    (srcHops t req dflt).2 = (if 1 < req then req else dflt) := by
-  rcases ht with rfl | rfl | rfl <;> (simp only [srcHops]; split <;> (split <;> first | omega | simp_all))
+/-- C20-KF1 is EXACTLY the band `v ≥ 1 000 000`: there the code as it is writes an octet standing for 0 ms, which is
+never the demanded one (octet 0x2B = 10 × 100 s does not exceed `v`) -/
+theorem kf1_band (v : Nat) (hv : 1000000 ≤ v) :
+    LTSpec.octetMillis (LT.setMillis true v).encode = 0 ∧ ¬ LTSpec.IsLifetimeOctet v (LT.setMillis true v).encode :=
+  LTLemmas.kf1_band v hv
 
-theorem ls_hops (req dflt : Nat) :
-    srcHops .lsRequest req dflt = (dflt, dflt) ∧ srcHops .lsReply req dflt = (dflt, dflt) := ⟨rfl, rfl⟩
+/-- lifetime of an originated packet: the model's choice (`srcLifetime`: request if present, else MIB default) writes
+the octet demanded for `LTSpec.lifetimeMs` (request if specified, else itsGnDefaultPacketLifetime) -/
+theorem src_lifetime_meets_spec (capped : Bool) (req : Option Nat) (dfltS : Nat)
+    (h : capped = false ∨ LTSpec.lifetimeMs req dfltS < 1000000) :
+    LTSpec.IsLifetimeOctet (LTSpec.lifetimeMs req dfltS) (srcLifetime capped req dfltS).encode :=
+  LTLemmas.src_lifetime_meets_spec capped req dfltS h
 
-/-- originated packets always pass the receiver's `rhl ≤ mhl` guard -/
-theorem src_passes_guard (t : Transport) (req dflt : Nat) :
-    recvHopGuard (srcHops t req dflt).1 (srcHops t req dflt).2 = true := by
-  cases t <;> simp [srcHops, recvHopGuard]
+/-- "never exceeds" needs no restriction: also inside the KF1 band the written lifetime does not exceed the request -/
+theorem src_lifetime_never_exceeds (capped : Bool) (req : Option Nat) (dfltS : Nat) :
+    LTSpec.octetMillis (srcLifetime capped req dfltS).encode ≤ LTSpec.lifetimeMs req dfltS :=
+  LTLemmas.src_lifetime_never_exceeds capped req dfltS
 
-theorem recv_guard (rhl mhl : Nat) : mhl < rhl → recvHopGuard rhl mhl = false := by
-  intro h; simp [recvHopGuard]; omega
+/-! ## 4. Remaining lifetime reported upward -/
 
-/-! ## Side conditions on the constants regenerated from `/repo`'s MIB on every run -/
+/-- **the remaining lifetime a receiver reports never exceeds the lifetime on the wire**, for all 256 LT octets:
+what the indication carries (`indRemainingS`, the model of the five indication sites) is admissible by the Spec -/
+theorem remaining_admissible (b : Nat) (h : b < 256) : LTSpec.AdmissibleRemaining b (indRemainingS b) := by
+  unfold LTSpec.AdmissibleRemaining indRemainingS LT.seconds
+  rw [← LTLemmas.decode_reads_octet b h]
+  omega
+
+/-- and it loses less than one second (no rounding up, no truncation to 0 of lifetimes ≥ 1 s) -/
+theorem remaining_tight (b : Nat) (h : b < 256) : LTSpec.octetMillis b < (indRemainingS b + 1) * 1000 := by
+  unfold indRemainingS LT.seconds
+  rw [← LTLemmas.decode_reads_octet b h]
+  omega
+
+/-! ## 5. Hop limits of originated packets -/
+
+/-- **SHB and beacons carry hop limit 1; multi-hop packets carry RHL = MHL = the requested limit if specified, else
+itsGnDefaultHopLimit; LS packets itsGnDefaultHopLimit** — the model of the six source operations (`srcHops`) is the
+Spec's `hops` under the interface convention `LTSpec.requestedHops` ("0 and 1 mean: not specified") -/
+theorem src_hops_meet_spec (t : Transport) (req dflt : Nat) :
+    srcHops t req dflt = LTSpec.hops t (LTSpec.requestedHops req) dflt := LTLemmas.src_hops_meet_spec t req dflt
+
+/-- §10.3.5 receiver guard: the model's guard rejects exactly the packets the standard says must be discarded -/
+theorem recv_guard_meets_spec (rhl mhl : Nat) : recvHopGuard rhl mhl = false ↔ LTSpec.MustDiscard rhl mhl := by
+  simp only [recvHopGuard, LTSpec.MustDiscard, decide_eq_false_iff_not]; omega
+
+/-- no originated packet is one a receiver must discard (Spec-level, every transport, every request/default) -/
+theorem originated_never_discarded (t : Transport) (req : Option Nat) (dflt : Nat) :
+    ¬ LTSpec.MustDiscard (LTSpec.hops t req dflt).1 (LTSpec.hops t req dflt).2 := by
+  cases t <;> simp [LTSpec.hops, LTSpec.MustDiscard]
+
+/-! ## 6. "Discards" means: no effect at all (on C04's byte-level model of the receive prologue) -/
+
+open FlexModel.Geo.Recv in
+private theorem byteAt_drop4 (f : List Nat) (i : Nat) : byteAt (f.drop 4) i = byteAt f (4 + i) := by
+  simp [byteAt, List.getD_eq_getElem?_getD, List.getElem?_drop]
+
+open FlexModel.Geo.Recv in
+private theorem commonStage_raises (rhl : Nat) (p : List Nat) (h : byteAt p 6 < rhl) :
+    ∃ e, commonStage rhl p = .raised e := by
+  unfold commonStage
+  by_cases h0 : p.length < 8
+  · exact ⟨_, by rw [if_pos h0]⟩
+  · rw [if_neg h0]
+    simp only
+    by_cases h1 : (!Generated.Enums.CommonNH_values.contains (byteAt p 0 / 16)) = true
+    · exact ⟨_, by rw [if_pos h1]⟩
+    · rw [if_neg h1]
+      by_cases h2 : (!Generated.Enums.HeaderType_values.contains (byteAt p 1 / 16)) = true
+      · exact ⟨_, by rw [if_pos h2]⟩
+      · rw [if_neg h2]
+        by_cases h3 : (!hstOk (byteAt p 1 / 16) (byteAt p 1 % 16)) = true
+        · exact ⟨_, by rw [if_pos h3]⟩
+        · exact ⟨_, by rw [if_neg h3, if_pos h]⟩
+
+open FlexModel.Geo.Recv in
+/-- **a receiver discards packets whose remaining hop limit exceeds their maximum**: an unsecured frame (basic-header
+NH = 1) whose RHL octet (3) exceeds its MHL octet (10) leaves the station's state unchanged and causes no action
+(no indication, no location-table update, no transmission) — for every configuration, every state, every stateful
+handler.  (A secured frame, NH = 2, reaches the same guard only after the verify service: C03/C05's path, not
+modelled here.) -/
+theorem discard_has_no_effect {σ α : Type} (cfg : Cfg) (handle : σ → Handler → List Nat → σ × List α × Option Exc)
+    (verify : σ → List Nat → σ × List α × Option Exc) (st : σ) (f : List Nat) (hnh : byteAt f 0 % 16 = 1)
+    (h : LTSpec.MustDiscard (byteAt f 3) (byteAt f 10)) :
+    (recvGN cfg handle verify st f).1 = st ∧ (recvGN cfg handle verify st f).2.1 = [] := by
+  have key : (∃ e, classify cfg f = .raised e) ∨ classify cfg f = .dropped := by
+    unfold classify
+    by_cases h0 : f.length < 4
+    · exact Or.inl ⟨_, by rw [if_pos h0]⟩
+    · rw [if_neg h0]
+      simp only [hnh]
+      by_cases h1 : (!Generated.Enums.BasicNH_values.contains 1) = true
+      · exact Or.inl ⟨_, by rw [if_pos h1]⟩
+      · rw [if_neg h1]
+        by_cases h2 : byteAt f 0 / 16 ≠ cfg.version
+        · exact Or.inl ⟨_, by rw [if_pos h2]⟩
+        · rw [if_neg h2]
+          simp only [if_true]
+          cases cfg.securityEnabled with
+          | true => exact Or.inr (by simp)
+          | false =>
+            obtain ⟨e, he⟩ := commonStage_raises (byteAt f 3) (f.drop 4) (by rw [byteAt_drop4]; exact h)
+            exact Or.inl ⟨e, by simpa using he⟩
+  unfold recvGN
+  rcases key with ⟨e, he⟩ | hd
+  · simp [he]
+  · simp [hd]
+
+/-! ## 7. Side conditions on the constants regenerated from `/repo`'s MIB on every run -/
 
 /-- the MIB default lifetime is exactly representable, so packets without a requested lifetime carry it unchanged -/
 theorem mib_default_exact (capped : Bool) :
@@ -143,19 +214,39 @@ theorem mib_default_exact (capped : Bool) :
 /-- every lifetime up to `itsGnMaxPacketLifetime` lies outside the region of known finding C20-KF1 -/
 theorem mib_max_below_cap : Generated.Mib.itsGnMaxPacketLifetime * 1000 < 1000000 := by decide
 
-/-- hence, for every request up to the MIB maximum, the code as it is satisfies the full property -/
-theorem setMillis_spec_upto_mib_max (v : Nat) (hv : v ≤ Generated.Mib.itsGnMaxPacketLifetime * 1000) :
-    let r := LT.setMillis true v
-    r.WF ∧ r.millis ≤ v ∧ (∀ c : LT, c.WF → c.millis ≤ v → c.millis ≤ r.millis) ∧ (50 ≤ v → 0 < r.millis) :=
-  setMillis_spec_partial v (Nat.lt_of_le_of_lt hv mib_max_below_cap)
+/-- hence, for every request up to the MIB maximum, the code as it is writes the demanded octet.  NOTE: nothing in
+/repo enforces `itsGnMaxPacketLifetime` (it is read nowhere), so this hypothesis is a promise of the CALLER, not a
+fact about the code — see `kf1_reachable`. -/
+theorem written_octet_upto_mib_max (v : Nat) (hv : v ≤ Generated.Mib.itsGnMaxPacketLifetime * 1000) :
+    LTSpec.IsLifetimeOctet v (LT.setMillis true v).encode :=
+  written_octet_meets_spec_partial v (Nat.lt_of_le_of_lt hv mib_max_below_cap)
 
-/-- the MIB default hop limit fits the 8-bit field -/
+/-- the KF1 band is reachable through the public API: requests above `itsGnMaxPacketLifetime` are not rejected or
+clamped anywhere, and inside the property's quantifier (… to 7 000 000 ms) there are requests ≥ 50 ms written as 0 -/
+theorem kf1_reachable :
+    ∃ v, Generated.Mib.itsGnMaxPacketLifetime * 1000 < v ∧ v ≤ 7000000 ∧ 50 ≤ v ∧
+      LTSpec.octetMillis (srcLifetime true (some v) Generated.Mib.itsGnDefaultPacketLifetime).encode = 0 :=
+  ⟨1000000, by decide, by decide, by decide, by decide⟩
+
+/-- the MIB default hop limit fits the 8-bit field and is a hop limit a receiver accepts -/
 theorem mib_default_hop_fits : Generated.Mib.itsGnDefaultHopLimit < 256 := by decide
 
-/-! ## Non-vacuity -/
+/-! ## 8. Non-vacuity -/
 
 example : (LT.greatest 1999) = ⟨39, 0⟩ ∧ (LT.greatest 600000) = ⟨6, 3⟩ ∧ (LT.greatest 3000) = ⟨3, 1⟩ := by decide
 example : (⟨39, 0⟩ : LT).WF ∧ (⟨39, 0⟩ : LT).millis ≤ 1999 := by decide
-example : srcHops .gbc 0 10 = (10, 10) ∧ srcHops .guc 7 10 = (7, 7) := by decide
+example : srcHops .gbc 0 10 = (10, 10) ∧ srcHops .guc 7 10 = (7, 7) ∧ srcHops .gac 1 10 = (10, 10) := by decide
+/-- the Spec reads as the property text: requested limit when above 1, else the MIB default -/
+example : LTSpec.hops .gbc (LTSpec.requestedHops 7) 10 = (7, 7) ∧ LTSpec.hops .gbc (LTSpec.requestedHops 1) 10 = (10, 10) ∧
+    LTSpec.hops .shb (LTSpec.requestedHops 7) 10 = (1, 1) ∧ LTSpec.hops .lsReply (some 7) 10 = (10, 10) := by decide
+example : LTSpec.IsLifetimeOctet 1999 156 ∧ LTSpec.octetMillis 156 = 1950 :=
+  ⟨by have := LTLemmas.greatest_octet 1999; have e : (LT.greatest 1999).encode = 156 := by decide
+      rwa [e] at this, by decide⟩
+example : LTSpec.MustDiscard 11 10 ∧ ¬ LTSpec.MustDiscard 10 10 := by decide
+example : LTSpec.AdmissibleRemaining 156 1 ∧ ¬ LTSpec.AdmissibleRemaining 156 2 := by decide
+/-- hypothesis of `discard_has_no_effect` is satisfiable: an SHB frame with RHL 2 > MHL 1 -/
+example : FlexModel.Geo.Recv.byteAt ([0x11, 0, 5, 2] ++ [0x20, 0x50, 0, 0x80, 0, 0, 1, 0]) 0 % 16 = 1 ∧
+    LTSpec.MustDiscard (FlexModel.Geo.Recv.byteAt ([0x11, 0, 5, 2] ++ [0x20, 0x50, 0, 0x80, 0, 0, 1, 0]) 3)
+      (FlexModel.Geo.Recv.byteAt ([0x11, 0, 5, 2] ++ [0x20, 0x50, 0, 0x80, 0, 0, 1, 0]) 10) := by decide
 
 end Props.C20
